@@ -71,7 +71,7 @@ fn exec_guarded(w: &mut World, op: &Op) -> Result<R, HarnessError> {
             if is_harness_location(&loc) {
                 return Err(HarnessError(format!("harness panic at {}: {} (during {})", loc, msg, op.encode())));
             }
-            for p in World::panic_props(op) {
+            for p in World::panic_props(op, &loc) {
                 if w.on(*p) {
                     return Ok(Err(w.fail(
                         *p,
@@ -178,7 +178,7 @@ pub fn generate(seed_i: u64, prop: u32, step_scale: usize) -> Result<Generated, 
                     break;
                 }
             }
-            if w.props == 0 {
+            if w.props == 0 || w.poisoned {
                 aborted = true;
                 break;
             }
@@ -254,7 +254,7 @@ pub fn replay(start_fen: &str, trace: &[Op], prop: u32) -> Result<RunOutput, Har
                     break;
                 }
             }
-            if w.props == 0 {
+            if w.props == 0 || w.poisoned {
                 aborted = true;
                 break;
             }
@@ -291,6 +291,41 @@ fn same_class(v: &Option<Violation>, prop: &str, class: &str) -> bool {
     matches!(v, Some(x) if x.prop == prop && x.class == class)
 }
 
+fn ddmin(
+    cur: &mut Vec<Op>,
+    fails: &dyn Fn(&[Op]) -> Result<bool, HarnessError>,
+    budget: &mut usize,
+) -> Result<(), HarnessError> {
+    let mut chunk = (cur.len() / 2).max(1);
+    loop {
+        let mut i = 0;
+        let mut progressed = false;
+        while i < cur.len() && *budget > 0 {
+            let end = (i + chunk).min(cur.len());
+            let mut cand = cur[..i].to_vec();
+            cand.extend_from_slice(&cur[end..]);
+            *budget -= 1;
+            if fails(&cand)? {
+                *cur = cand;
+                progressed = true;
+            } else {
+                i = end;
+            }
+        }
+        if *budget == 0 {
+            break;
+        }
+        if chunk == 1 {
+            if !progressed {
+                break;
+            }
+        } else {
+            chunk /= 2;
+        }
+    }
+    Ok(())
+}
+
 /// Delta debugging over the concrete trace: drop chunks, then single operations,
 /// then shrink the inside of read phases and move lists, keeping a candidate only if
 /// it still fails with the same property and violation class.
@@ -306,34 +341,81 @@ pub fn minimize(start_fen: &str, trace: &[Op], prop: u32, v: &Violation) -> Resu
             return Ok(trace.to_vec());
         }
     }
-    let mut budget = 4000usize;
-    let mut chunk = (cur.len() / 2).max(1);
-    loop {
-        let mut i = 0;
-        let mut progressed = false;
-        while i < cur.len() && budget > 0 {
-            let end = (i + chunk).min(cur.len());
-            let mut cand = cur[..i].to_vec();
-            cand.extend_from_slice(&cur[end..]);
-            budget -= 1;
-            if fails(&cand)? {
-                cur = cand;
-                progressed = true;
-            } else {
-                i = end;
+    let mut budget = 6000usize;
+    ddmin(&mut cur, &fails, &mut budget)?;
+
+    // (a) split move lists into single pushes, so that deletion can work inside them
+    let mut i = 0;
+    while i < cur.len() && budget > 0 {
+        if let Op::PushUciList(text) = &cur[i] {
+            let toks: Vec<String> = text.split_ascii_whitespace().map(|s| s.to_string()).collect();
+            if toks.len() >= 2 {
+                let mut cand = cur[..i].to_vec();
+                for t in &toks {
+                    cand.push(Op::Push(crate::ops::MoveLike::UciStr(t.clone())));
+                }
+                cand.extend_from_slice(&cur[i + 1..]);
+                budget -= 1;
+                if fails(&cand)? {
+                    cur = cand;
+                    i += toks.len();
+                    continue;
+                }
             }
         }
+        i += 1;
+    }
+    // (b) prefer simpler operations
+    for i in 0..cur.len() {
         if budget == 0 {
             break;
         }
-        if chunk == 1 {
-            if !progressed {
-                break;
+        let simpler = match &cur[i] {
+            Op::SetAuto(_) => Some(Op::SetOutcome(crate::ops::OutcomeSpec::Draw(6))),
+            Op::ResetOutcome(Some(_)) => Some(Op::SetOutcome(crate::ops::OutcomeSpec::Draw(6))),
+            _ => None,
+        };
+        if let Some(op) = simpler {
+            let mut cand = cur.clone();
+            cand[i] = op;
+            budget -= 1;
+            if fails(&cand)? {
+                cur = cand;
             }
-        } else {
-            chunk /= 2;
         }
     }
+    // (c) drop a push together with a later pop
+    let mut progressed = true;
+    while progressed && budget > 0 {
+        progressed = false;
+        'outer: for j in 0..cur.len() {
+            if cur[j] != Op::Pop {
+                continue;
+            }
+            for i in (0..j).rev() {
+                if !matches!(cur[i], Op::Push(_) | Op::PushUciList(_)) {
+                    continue;
+                }
+                if budget == 0 {
+                    break 'outer;
+                }
+                let mut cand = cur.clone();
+                cand.remove(j);
+                cand.remove(i);
+                budget -= 1;
+                if fails(&cand)? {
+                    cur = cand;
+                    progressed = true;
+                    break 'outer;
+                }
+                if j - i > 6 {
+                    break;
+                }
+            }
+        }
+    }
+    ddmin(&mut cur, &fails, &mut budget)?;
+
     // shrink inside compound operations
     let mut i = 0;
     while i < cur.len() && budget > 0 {
